@@ -73,6 +73,49 @@ def run(ck):
            rn.nodes[rn.strip(rn.kids(i)[0])].get('n') == 'counter']
     ck.ob('C39.taint', 'C39.taint/rotation-counter', len(inc) == 1, rn.loc(), 'each rotation advances the shared counter by one')
 
+    # the rotation schedule is anchored at the shared handshake: a rotation is due only when a whole interval has elapsed since
+    # last_rotation, compared as std::chrono durations (no narrowing / unsigned reinterpretation of the elapsed time), and a
+    # (re-)registration always restarts the schedule at the reference time both ends share
+    from sa.paths import gate_check
+    from sa.match import holds
+    from sa.canon import canon
+    from sa.flow import field_accesses
+
+    def due_gate(fact):
+        h = holds(rn, fact)
+        if h is None:
+            return False
+        a, rel, b = h
+        ca, cb = canon(rn, a), canon(rn, b)
+        ta, tb = rn.nodes[rn.strip(a, casts=False)].get('t') or '', rn.nodes[rn.strip(b, casts=False)].get('t') or ''
+        if 'std::chrono::duration' not in ta or 'std::chrono::duration' not in tb:
+            return False
+        elapsed = lambda c: c[0] in ('op-', '-') and c[1] == ('v', rn.params[1]['n']) and c[2][0] == 'm' and c[2][2] == 'last_rotation'
+        interval = lambda c: c == ('f', 'rotation_interval_')
+        return rel == '>=' and elapsed(ca) and interval(cb) or rel == '<=' and elapsed(cb) and interval(ca)
+    effects = [('rotation', i) for i in inc]
+    for i, m, w in field_accesses(rn):
+        if w and m.endswith('SessionKeyContext::current_key'):
+            effects.append(('new key', i))
+    ck.floor('C39.sched', 'state changes of a rotation in rotate_if_needed', len(effects), 2)
+    fails, _n = gate_check(rn, effects, [('now - last_rotation >= rotation_interval_', due_gate)])
+    ck.ob('C39.sched', 'C39.sched/rotation-due', not fails, rn.loc(fails[0][2]) if fails else rn.loc(),
+          'rotate_if_needed changes the counter and the key only when `now - last_rotation >= rotation_interval_` holds as a comparison of '
+          'std::chrono durations (a tick sampled before the handshake gives a negative elapsed time and must not rotate)', fails[0][3] if fails else None)
+    rg = P.fn(KM + 'register_session_with_material')
+    ck.touch(rg)
+    lr = []
+    for i in rg.walk():
+        nd = rg.nodes[i]
+        if nd['k'] in ('BinaryOperator', 'CXXOperatorCallExpr') and nd.get('op') == '=':
+            ks = rg.kids(i) if nd['k'] == 'BinaryOperator' else rg.kids(i)[1:]
+            l = rg.nodes[rg.strip(ks[0], casts=False)]
+            if l['k'] == 'MemberExpr' and l.get('n') == 'last_rotation':
+                lr.append((i, canon(rg, ks[1])))
+    okr = len(lr) == 1 and lr[0][1] == ('v', rg.params[3]['n'])
+    ck.ob('C39.sched', 'C39.sched/registration-restarts-schedule', okr, rg.loc(lr[0][0]) if lr else rg.loc(),
+          'register_session_with_material sets last_rotation exactly once, to the reference time of this handshake (found %s)' % [c for _i, c in lr])
+
     PN = ck.prog(['src/core/Node.cpp'])
     sites = 0
     for q in (N + 'rotate_session_keys', N + 'rotate_session_key'):
